@@ -248,9 +248,30 @@ func (ex *Exec) chanRecv(fr *frame, c *Chan) (Value, bool) {
 		v := ch.Buf[0]
 		ch.Buf = ch.Buf[1:]
 		ch.taken++
+		ex.timerFired(ch)
 		return v, true
 	}
 	return ex.zero(ch.ET), false
+}
+
+// timerFired: a value was received from a time.Timer's channel, i.e. the timer has expired:
+// like time.After, that is a wait of (at least) the armed duration - logged as a "sleep"
+// event and reflected in the model clock, which is then no earlier than arming time + d.
+func (ex *Exec) timerFired(ch *ChanObj) {
+	if ch.timerD == nil {
+		return
+	}
+	d, arm := ch.timerD, ch.timerArm
+	ch.timerD, ch.timerArm = nil, nil
+	ex.logEvent("sleep", d)
+	B := ex.B
+	adv := B.Var(fmt.Sprintf("sleepextra#%d", ex.freshN("sleep")), 64)
+	ex.X.AssumeNoCheck(B.Bin(OSle, B.Const(64, 0), adv))
+	ex.X.AssumeNoCheck(B.Bin(OSle, adv, B.Const(64, 1<<40)))
+	dd := B.Ite(B.Bin(OSlt, d, B.Const(64, 0)), B.Const(64, 0), d)
+	target := B.Bin(OAdd, arm, B.Bin(OAdd, dd, adv))
+	now := ex.clock()
+	ex.clockFloor = B.Ite(B.Bin(OSlt, now, target), target, now)
 }
 
 func (ex *Exec) selectOp(fr *frame, in *ssa.Select) Value {
@@ -301,6 +322,7 @@ func (ex *Exec) selectOp(fr *frame, in *ssa.Select) Value {
 			rv, rok = c.C.Buf[0], true
 			c.C.Buf = c.C.Buf[1:]
 			c.C.taken++
+			ex.timerFired(c.C)
 		} else {
 			rv, rok = ex.zero(c.C.ET), false
 		}
